@@ -494,7 +494,7 @@ def gen_graph(rng, size="small", big_blobs=False):
             elif k < 0.9:
                 # a gitlink's id is never looked up: any 20 bytes are legal, the all-zero id (fsck only warns) and the id of an
                 # object that exists in this very repository included
-                ents[name] = (0o160000, rng.choice([bytes(rng.randrange(256) for _ in range(20))] * 3 + [b"\0" * 20, b"\xff" * 20]))
+                ents[name] = (0o160000, rng.choice([bytes(rng.randrange(256) for _ in range(20))] * 3 + [b"\0" * 20, b"\xff" * 20] + trees[-3:] + blobs[:1]))
             elif blobs:
                 ents[name] = (0o100644, rng.choice(blobs))
         entries = [(m, n, r) for n, (m, r) in ents.items()]
